@@ -256,6 +256,8 @@ func New(
 
 	// <sunrise>
 	app.SwapKeeper.TransferKeeper = &app.TransferKeeper
+	// the deferred acknowledgement / retry paths of the IBC swap middleware call the IBC keeper
+	app.SwapKeeper.IbcKeeperFn = func() *ibckeeper.Keeper { return app.IBCKeeper }
 	// </sunrise>
 
 	// register streaming services
